@@ -121,6 +121,11 @@ theorem readU64_err {bs : Bytes} {e : CErr} (h : readU64 bs = .error e) : e = .e
     | error e2 => simp only [h2] at h; injection h with h; exact h.symm
     | ok q => obtain ⟨hi, r'⟩ := q; simp only [h2] at h; cases h
 
+theorem map_ok_inv' {α β} {x : Except CErr α} {g : α → β} {y : β} (h : x.map g = .ok y) : ∃ a, x = .ok a ∧ g a = y := by
+  cases x with
+  | error e => cases h
+  | ok a => injection h with h; exact ⟨a, rfl, h⟩
+
 /-! ### `readExactTag` -/
 
 theorem readExactTag_inv {tag : Nat} {bs r : Bytes} (h : readExactTag tag bs = .ok r) :
